@@ -363,8 +363,8 @@ func init() {
 		New:         func() any { return &C17Case{} },
 		Check:       func(c any) Result { return checkC17(c.(*C17Case)) },
 		FuzzTargets: []string{"FuzzRewriters"},
-		FuzzSeconds: 120,
+		FuzzSeconds: 240,
 		Quick:       4000,
-		Thorough:    30000,
+		Thorough:    300000,
 	})
 }
